@@ -1349,3 +1349,17 @@ package collection
 //@   nopanic
 //@   modifies view(this)
 //@   ensures result.1 && nonnilq(this) ==> result.0 != nil
+
+//@ iface QueueClassLike.MakeWithCapacity
+//@   nopanic
+//@   ensures fresh(result) && result != nil && view(result) == empty()
+
+//@ iface NotationClassLike.Make
+//@   nopanic
+//@   ensures result != nil
+
+//@ iface QueueLike.AddValue
+//@   nopanic
+//@   mayblock
+//@   requires nonnilq(this) ==> value != nil
+//@   modifies view(this)
